@@ -1103,6 +1103,9 @@ void h_e2e_floating(void) {
 /* F11 as the user sees it: a variant holding an unsigned number (e.g. a parsed 5) against a negative int */
 void h_e2e_unsigned_vs_narrow_signed(void) {
   E2E_INT(schar, kind_unsigned(), COV_UNSIGNED); E2E_INT(short, kind_unsigned(), COV_UNSIGNED); E2E_INT(int, kind_unsigned(), COV_UNSIGNED);
+#ifdef CANARY_E2E
+  CHECK(in_u8() != 7, "canary: deliberately false for a reachable case");
+#endif
 }
 /* booleans: bool against bool; null/unbound against bool DIFFER */
 void h_e2e_bool(void) {
